@@ -509,6 +509,8 @@ impl BDF {
                 }
                 weighted_rms_scaled(&rhs, &scale)
             };
+            // A new state that is not finite is never accepted (its infinite scale would hide the error)
+            let error_norm = if y_new.iter().any(|v| !v.is_finite()) { Float::INFINITY } else { error_norm };
 
             #[cfg(ivp_verif)]
             crate::verif_hooks::trace("berr", &[error_norm]);
